@@ -15,7 +15,17 @@ static COUNTDOWN: AtomicI64 = AtomicI64::new(-1);
 static FIRED: AtomicUsize = AtomicUsize::new(0);
 static TRACK: AtomicBool = AtomicBool::new(false);
 static DOUBLE_FREE: AtomicUsize = AtomicUsize::new(0);
-const N: usize = 256;
+static CAREFUL: AtomicBool = AtomicBool::new(false);
+const N: usize = 1024;
+
+/// "careful" mode (single-threaded engines only): every trace runs with free-tracking on, so a double
+/// free is recorded at the operation where it happens instead of corrupting the process heap
+pub fn set_careful(on: bool) {
+    CAREFUL.store(on, Relaxed)
+}
+pub fn careful() -> bool {
+    CAREFUL.load(Relaxed)
+}
 #[allow(clippy::declare_interior_mutable_const)]
 const Z: AtomicUsize = AtomicUsize::new(0);
 static FREED: [AtomicUsize; N] = [Z; N];
